@@ -86,8 +86,11 @@ fn run_case(i: usize, case: &Value) -> Value {
             Ok(Ok(())) => {
                 let mut bytes = vec![];
                 for o in &cap.out {
-                    if let crate::pattern::Out::Bytes(b) = o {
-                        bytes.extend_from_slice(b);
+                    match o {
+                        crate::pattern::Out::Bytes(b) => bytes.extend_from_slice(b),
+                        // a style request is not part of a JSON line: on a colour-capable writer it is an escape
+                        // sequence, i.e. raw control characters inside or in front of the object
+                        crate::pattern::Out::Style(_) => return Err("the JSON encoder issued a style request to the writer".to_string()),
                     }
                 }
                 Ok((bytes, thread_id::get()))
